@@ -164,10 +164,13 @@ def fromWire (ty : Ty) (b : Bytes) : Except Err Val :=
 /-- `frombuffer(stream.read(count), response_dtype)`: `n` consecutive items -/
 def fromWireMany (ty : Ty) : Nat → Bytes → Except Err (List Val)
   | 0, b => if b.isEmpty then .ok [] else .error .short
-  | n + 1, b => do
-      let v ← fromWire ty (b.take (wireWidth ty))
-      let vs ← fromWireMany ty n (b.drop (wireWidth ty))
-      pure (v :: vs)
+  | n + 1, b =>
+      match fromWire ty (b.take (wireWidth ty)) with
+      | .error e => .error e
+      | .ok v =>
+        match fromWireMany ty n (b.drop (wireWidth ty)) with
+        | .error e => .error e
+        | .ok vs => .ok (v :: vs)
 
 /-- `bytes.decode("ascii")` -/
 def asciiDecode (b : Bytes) : Except Err Bytes :=
@@ -177,57 +180,73 @@ def asciiDecode (b : Bytes) : Except Err Bytes :=
 def rstrip0 (b : Bytes) : Bytes := (b.reverse.dropWhile (· == 0)).reverse
 
 /-- one string: length word, `read(k)` (possibly short: a `BytesReader` does not complain), `read(-k % 4)` -/
-def readString (s : Bytes) : Except Err (Bytes × Bytes) := do
-  let (k, s1) ← readLen s
-  let (b, s2) := read k s1
-  let (_, s3) := read (pad4 k) s2
-  let t ← asciiDecode b
-  pure (t, s3)
+def readString (s : Bytes) : Except Err (Bytes × Bytes) :=
+  match readLen s with
+  | .error e => .error e
+  | .ok (k, s1) =>
+    let s3 := (read (pad4 k) (read k s1).2).2
+    match asciiDecode (read k s1).1 with
+    | .error e => .error e
+    | .ok t => .ok (t, s3)
 
 /-- the `for _ in range(n)` loop of the string-array branch -/
 def readStrings : Nat → Bytes → Except Err (List Val × Bytes)
   | 0, s => .ok ([], s)
-  | n + 1, s => do
-      let (k, s1) ← readLen s
-      let (b, s2) := read k s1
-      let (_, s3) := read (pad4 k) s2
-      let (vs, s4) ← readStrings n s3
-      pure (.str b :: vs, s4)
+  | n + 1, s =>
+      match readLen s with
+      | .error e => .error e
+      | .ok (k, s1) =>
+        match readStrings n (read (pad4 k) (read k s1).2).2 with
+        | .error e => .error e
+        | .ok (vs, s4) => .ok (.str (read k s1).1 :: vs, s4)
 
+/-- `numpy.array([str(x.decode("ascii")) for x in data], "S")` -/
 def decodeAll : List Val → Except Err (List Val)
   | [] => .ok []
-  | .str b :: vs => do
-      let t ← asciiDecode b
-      let ts ← decodeAll vs
-      pure (.str (rstrip0 t) :: ts)
-  | v :: vs => do
-      let ts ← decodeAll vs
-      pure (v :: ts)
+  | .str b :: vs =>
+      match asciiDecode b with
+      | .error e => .error e
+      | .ok t =>
+        match decodeAll vs with
+        | .error e => .error e
+        | .ok ts => .ok (.str (rstrip0 t) :: ts)
+  | v :: vs =>
+      match decodeAll vs with
+      | .error e => .error e
+      | .ok ts => .ok (v :: ts)
 
 /-- `convert_stream_to_list(stream, parser_dtype, shape, id)` -/
 def convertStream (ty : Ty) (shape : List Nat) (s : Bytes) : Except Err (Data × Bytes) :=
-  if !shape.isEmpty then do
-    let (n, s1) ← readLen s
-    if wireChar ty = 'S' then do
-      let (raw, s2) ← readStrings n s1
-      let vs ← decodeAll raw
-      if n ≠ prod shape then .error .shape else pure (.array vs, s2)
-    else do
-      let (_, s2) := read 4 s1                        -- the repeated length, not inspected
-      let (b, s3) := read (wireWidth ty * n) s2
-      let vs ← fromWireMany ty n b
-      if n ≠ prod shape then .error .shape
+  if !shape.isEmpty then
+    match readLen s with
+    | .error e => .error e
+    | .ok (n, s1) =>
+      if wireChar ty = 'S' then
+        match readStrings n s1 with
+        | .error e => .error e
+        | .ok (raw, s2) =>
+          match decodeAll raw with
+          | .error e => .error e
+          | .ok vs => if n ≠ prod shape then .error .shape else .ok (.array vs, s2)
       else
-        let s4 := if wireChar ty = 'B' then (read (pad4 n) s3).2 else s3
-        pure (.array vs, s4)
-  else if wireChar ty = 'S' then do
-    let (t, s1) ← readString s
-    pure (.scalar (.str t), s1)
-  else do
-    let (b, s1) := read (wireWidth ty) s
-    let v ← fromWire ty b
-    let s2 := if wireChar ty = 'B' then (read 3 s1).2 else s1
-    pure (.scalar v, s2)
+        let s2 := (read 4 s1).2                        -- the repeated length, not inspected
+        let b := (read (wireWidth ty * n) s2).1
+        let s3 := (read (wireWidth ty * n) s2).2
+        match fromWireMany ty n b with
+        | .error e => .error e
+        | .ok vs =>
+          if n ≠ prod shape then .error .shape
+          else .ok (.array vs, if wireChar ty = 'B' then (read (pad4 n) s3).2 else s3)
+  else if wireChar ty = 'S' then
+    match readString s with
+    | .error e => .error e
+    | .ok (t, s1) => .ok (.scalar (.str t), s1)
+  else
+    match fromWire ty (read (wireWidth ty) s).1 with
+    | .error e => .error e
+    | .ok v =>
+      let s1 := (read (wireWidth ty) s).2
+      .ok (.scalar v, if wireChar ty = 'B' then (read 3 s1).2 else s1)
 
 /-- `unpack_sequence`'s test for the record-at-a-time path: base-type columns, no strings, scalar, and
     the parser dtype is the wire dtype (16-bit and Byte columns are widened/padded on the wire) -/
@@ -245,58 +264,71 @@ def recordSize : List Tmpl → Nat
 
 /-- `numpy.frombuffer(buf, dtype)[0]`: the fields in order -/
 def splitRecord : List Tmpl → Bytes → Except Err (List Data)
-  | .base ty _ :: cs, b => do
-      let v ← fromWire ty (b.take (parserWidth ty))
-      let ds ← splitRecord cs (b.drop (parserWidth ty))
-      pure (.scalar v :: ds)
+  | .base ty _ :: cs, b =>
+      match fromWire ty (b.take (parserWidth ty)) with
+      | .error e => .error e
+      | .ok v =>
+        match splitRecord cs (b.drop (parserWidth ty)) with
+        | .error e => .error e
+        | .ok ds => .ok (.scalar v :: ds)
   | _, _ => .ok []
 
 /-- the marker loop of the simple path -/
 def decRowsSimple (cs : List Tmpl) : Nat → Bytes → Except Err (List Data × Bytes)
   | 0, _ => .error .fuel
   | f + 1, s =>
-      let (marker, s1) := read 4 s
-      if marker = Gen.START_OF_SEQUENCE then do
-        let (b, s2) := read (recordSize cs) s1
+      if (read 4 s).1 = Gen.START_OF_SEQUENCE then
+        let b := (read (recordSize cs) (read 4 s).2).1
         if b.length ≠ recordSize cs then .error .short else
-        let r ← splitRecord cs b
-        let (rs, s3) ← decRowsSimple cs f s2
-        pure (.tuple r :: rs, s3)
-      else .ok ([], s1)
+        match splitRecord cs b with
+        | .error e => .error e
+        | .ok r =>
+          match decRowsSimple cs f (read (recordSize cs) (read 4 s).2).2 with
+          | .error e => .error e
+          | .ok (rs, s3) => .ok (.tuple r :: rs, s3)
+      else .ok ([], (read 4 s).2)
 
 mutual
 /-- one column inside `unpack_children` -/
 def dec : Nat → Tmpl → Bytes → Except Err (Data × Bytes)
   | 0, _, _ => .error .fuel
   | _ + 1, .base ty shape, s => convertStream ty shape s
-  | f + 1, .struct cs, s => do
-      let (ds, s1) ← decs f cs s
-      pure (.tuple ds, s1)
+  | f + 1, .struct cs, s =>
+      match decs f cs s with
+      | .error e => .error e
+      | .ok (ds, s1) => .ok (.tuple ds, s1)
   | f + 1, .seq cs, s =>
-      if simpleCols cs then do
-        let (rs, s1) ← decRowsSimple cs f s
-        pure (.rows rs, s1)
-      else do
-        let (rs, s1) ← decRows f cs s
-        pure (.rows rs, s1)
+      if simpleCols cs then
+        match decRowsSimple cs f s with
+        | .error e => .error e
+        | .ok (rs, s1) => .ok (.rows rs, s1)
+      else
+        match decRows f cs s with
+        | .error e => .error e
+        | .ok (rs, s1) => .ok (.rows rs, s1)
 /-- `unpack_children`: the columns in order -/
 def decs : Nat → List Tmpl → Bytes → Except Err (List Data × Bytes)
   | 0, _, _ => .error .fuel
   | _ + 1, [], s => .ok ([], s)
-  | f + 1, c :: cs, s => do
-      let (d, s1) ← dec f c s
-      let (ds, s2) ← decs f cs s1
-      pure (d :: ds, s2)
+  | f + 1, c :: cs, s =>
+      match dec f c s with
+      | .error e => .error e
+      | .ok (d, s1) =>
+        match decs f cs s1 with
+        | .error e => .error e
+        | .ok (ds, s2) => .ok (d :: ds, s2)
 /-- the marker loop of `unpack_sequence`'s general path -/
 def decRows : Nat → List Tmpl → Bytes → Except Err (List Data × Bytes)
   | 0, _, _ => .error .fuel
   | f + 1, cs, s =>
-      let (marker, s1) := read 4 s
-      if marker = Gen.START_OF_SEQUENCE then do
-        let (ds, s2) ← decs f cs s1
-        let (rs, s3) ← decRows f cs s2
-        pure (.tuple ds :: rs, s3)
-      else .ok ([], s1)
+      if (read 4 s).1 = Gen.START_OF_SEQUENCE then
+        match decs f cs (read 4 s).2 with
+        | .error e => .error e
+        | .ok (ds, s2) =>
+          match decRows f cs s2 with
+          | .error e => .error e
+          | .ok (rs, s3) => .ok (.tuple ds :: rs, s3)
+      else .ok ([], (read 4 s).2)
 end
 
 mutual
